@@ -48,6 +48,12 @@ def run(ctx):
     if fm is not None:
         merge_rule(ctx, fm)
         delete_rule(ctx, fm)
+    if fc is not None:
+        rule_locked_take(ctx, "C07.L", fc, 1)
+    from . import c01, c05
+    c01.run(dep(ctx, "C07", "C01"))
+    c05.reader_ownership(dep(ctx, "C07", "C05"), "C05.C")
+    c05.ordinal_rule(dep(ctx, "C07", "C05"), "C05.N")
 
 
 def worker_closure(fv):
